@@ -785,6 +785,23 @@ void World::opTecmp(const Item& op)
         case 4:  // bus status: 12 generic bytes + n entries
             nn = std::min<size_t>(nn, 200);
             body = contentBytes(id, 0, wire::TECMP_BUS_GENERIC + nn * wire::TECMP_BUS_ENTRY);
+            if (op.has("eidv") && nn)
+            {
+                // extreme but legal values in one entry (or all): interface id 0 / all ones / the header's own id, counters 0 / all ones
+                const size_t first = op.get("eidall", 0) ? 0 : static_cast<size_t>(std::max<int64_t>(0, op.get("eidk", 0))) % nn;
+                const size_t last = op.get("eidall", 0) ? nn - 1 : first;
+                for (size_t e = first; e <= last; ++e)
+                {
+                    uint8_t* ent = body.data() + wire::TECMP_BUS_GENERIC + e * wire::TECMP_BUS_ENTRY;
+                    const int64_t sel = op.get("eidv");
+                    const uint32_t idv = (sel & 3) == 0 ? 0u : (sel & 3) == 1 ? 0xFFFFFFFFu : (sel & 3) == 2 ? static_cast<uint32_t>(op.get("ifid", 0)) : 1u;
+                    wire::wr32(ent, idv);
+                    if (sel & 4)
+                        wire::wr32(ent + 4, (sel & 8) ? 0xFFFFFFFFu : 0u);
+                    if (sel & 16)
+                        wire::wr32(ent + 8, (sel & 32) ? 0xFFFFFFFFu : 0u);
+                }
+            }
             break;
         default:  // arbitrary bytes
             body = contentBytes(id, 0, nn);
